@@ -19,6 +19,8 @@ except Exception:
 
 def run(sid):
     meta = json.load(open(os.path.join(V, "seeded", sid, "meta.json")))
+    if meta.get("obsolete"):
+        return sid, {"obsolete": meta["obsolete"]}
     props = [meta["property"]] + [p for p in a.extra.split(",") if p]
     props = [p for p in props if p in registered]
     if not props:
@@ -42,6 +44,8 @@ with cf.ThreadPoolExecutor(a.jobs) as ex:
         if out is None:
             print("%-7s (property not registered yet)" % sid); continue
         results[sid] = out
+        if "obsolete" in out:
+            print("%-7s obsolete" % sid); json.dump(results, open(res_path, "w"), indent=1, sort_keys=True); continue
         for pr, c in out.items() if "error" not in out else []:
             print("%-7s %-4s %s %s" % (sid, pr, "DETECTED" if c["detected"] else "missed  ", c["concrete_replays"][:2] or ("no-failing-input-found" if c["no_input_only"] else "")))
         if "error" in out:
